@@ -199,6 +199,8 @@ fn sweep(t: &mut Tape, full: bool) -> Scenario {
         },
         stable: true,
         light: true,
+        mutation: None,
+        sniff: false,
     }
 }
 
@@ -251,6 +253,317 @@ fn g_long(t: &mut Tape) -> Scenario {
     sc
 }
 
+fn g_stats(t: &mut Tape) -> Scenario {
+    // many short rounds so that per-hop statistics accumulate
+    let mut p = Profile::base();
+    p.max_path = 20;
+    p.sock_faults = true;
+    p.addr_in_use = true;
+    let mut sc = gen_scenario(t, &p);
+    let ms = 1_000_000u64;
+    sc.tracer.rounds = 5 + t.skewed(300);
+    sc.tracer.max_round_ns = (2 + u64::from(t.draw(20))) * ms;
+    sc.tracer.min_round_ns = sc.tracer.min_round_ns.min(sc.tracer.max_round_ns);
+    sc.tracer.grace_ns = sc.tracer.grace_ns.min(2 * ms);
+    sc.tracer.read_timeout_ns = ms;
+    sc.tracer.tcp_connect_timeout_ns = sc.tracer.tcp_connect_timeout_ns.min(20 * ms);
+    sc.faults.sock_pm = sc.faults.sock_pm.min(8);
+    sc.faults.sock_benign_pm = 1000;
+    sc.faults.stall_pm = 0;
+    sc.faults.tick_base_ns = sc.faults.tick_base_ns.clamp(100, 2000);
+    sc
+}
+
+fn g_ext(t: &mut Tape) -> Scenario {
+    let mut p = Profile::base();
+    p.ext_heavy = true;
+    p.delivery_faults = false;
+    p.late = false;
+    p.stalls = false;
+    p.hop_kinds = false;
+    p.target_kinds = false;
+    p.max_rounds = 4;
+    p.max_path = 24;
+    let mut sc = gen_scenario(t, &p);
+    if t.chance(800) {
+        sc.tracer.ext_enabled = true;
+    }
+    sc
+}
+
+fn g_flows(t: &mut Tape) -> Scenario {
+    use crate::gen::Cell;
+    use crate::scenario::{Proto, Strat};
+    let mut p = Profile::base();
+    p.ecmp_heavy = true;
+    p.small_max_flows = t.chance(700);
+    p.max_rounds = 40;
+    p.max_path = 16;
+    p.extensions = false;
+    let mut cells = Vec::new();
+    for strat in [Strat::Paris, Strat::Dublin] {
+        for ports in [1, 2, 3] {
+            cells.push(Cell { proto: Proto::Udp, strat, ports, unprivileged: false });
+        }
+    }
+    cells.push(Cell { proto: Proto::Icmp, strat: Strat::Classic, ports: 0, unprivileged: false });
+    cells.push(Cell { proto: Proto::Udp, strat: Strat::Classic, ports: 1, unprivileged: false });
+    cells.push(Cell { proto: Proto::Tcp, strat: Strat::Classic, ports: 2, unprivileged: false });
+    p.cells = cells;
+    let mut sc = gen_scenario(t, &p);
+    let ms = 1_000_000u64;
+    sc.tracer.max_round_ns = sc.tracer.max_round_ns.min(40 * ms);
+    sc.tracer.min_round_ns = sc.tracer.min_round_ns.min(sc.tracer.max_round_ns);
+    sc.tracer.read_timeout_ns = sc.tracer.read_timeout_ns.min(2 * ms);
+    sc
+}
+
+fn g_nat(t: &mut Tape) -> Scenario {
+    use crate::gen::Cell;
+    use crate::scenario::{Proto, Strat};
+    let mut p = Profile::base();
+    p.nat = true;
+    p.families = [true, !t.chance(850)];
+    if p.families[1] {
+        p.families = [true, true];
+    } else {
+        p.families = [true, false];
+    }
+    p.ecmp = false;
+    p.route_change = false;
+    p.max_rounds = 8;
+    p.max_path = 16;
+    if t.chance(800) {
+        p.cells = (1..=3).map(|ports| Cell { proto: Proto::Udp, strat: Strat::Dublin, ports, unprivileged: false }).collect();
+    }
+    gen_scenario(t, &p)
+}
+
+fn g_corrupt(t: &mut Tape) -> Scenario {
+    // live mode: genuine responses are corrupted in flight while probes are outstanding
+    let mut p = Profile::base();
+    p.ext_heavy = t.chance(500);
+    p.max_rounds = 4;
+    p.max_path = 12;
+    p.stalls = false;
+    let mut sc = gen_scenario(t, &p);
+    sc.inject.corrupt_pm = 100 + t.draw(900);
+    sc.sniff = t.chance(500);
+    sc
+}
+
+/// The configurations the C04 sweep is run in: protocol x family x strategy x extension
+/// mode x responder layout.
+const SWEEP_CFGS: u32 = 5 * 2 * 2 * 4;
+
+fn sweep_truncs(tier: &str) -> Vec<Option<u16>> {
+    let mut v: Vec<Option<u16>> = vec![None];
+    if tier == "thorough" {
+        v.extend((0..=200u16).map(Some));
+        v.extend((208..=640u16).step_by(16).map(Some));
+    } else {
+        v.extend((0..=8u16).map(Some));
+        v.extend([12, 16, 20, 24, 27, 28, 29, 32, 36, 40, 47, 48, 49, 56, 64, 72, 127, 129, 135, 200].map(Some));
+    }
+    v
+}
+
+fn dims8(tier: &str) -> Vec<u32> {
+    vec![SWEEP_CFGS, FIELDS8.len() as u32, 256, sweep_truncs(tier).len() as u32]
+}
+
+fn dims16(tier: &str) -> Vec<u32> {
+    vec![SWEEP_CFGS, FIELDS16.len() as u32, crate::net::MUT_VALUES_16.len() as u32, sweep_truncs(tier).len() as u32]
+}
+
+// an enumerated family runs in one tier only (an empty dimension list skips it)
+fn sweep_dims8_quick(tier: &str) -> Vec<u32> {
+    if tier == "quick" { dims8("quick") } else { Vec::new() }
+}
+fn sweep_dims8_thorough(tier: &str) -> Vec<u32> {
+    if tier == "thorough" { dims8("thorough") } else { Vec::new() }
+}
+fn sweep_dims16_quick(tier: &str) -> Vec<u32> {
+    if tier == "quick" { dims16("quick") } else { Vec::new() }
+}
+fn sweep_dims16_thorough(tier: &str) -> Vec<u32> {
+    if tier == "thorough" { dims16("thorough") } else { Vec::new() }
+}
+
+const FIELDS8: &[u8] = &[0, 1, 2, 3, 4, 5, 8, 9, 11, 12, 15];
+const FIELDS16: &[u8] = &[6, 7, 10, 13, 14];
+
+fn sweep_scenario(t: &mut Tape, wide: bool, tier: &str) -> Scenario {
+    use crate::scenario::*;
+    use crate::wire::{mpls_object, ErrorLayout, ExtObject, MplsEntry};
+    let cfg = t.draw(SWEEP_CFGS);
+    let (field, value) = if wide {
+        let f = FIELDS16[t.draw(FIELDS16.len() as u32) as usize];
+        (f, u32::from(crate::net::MUT_VALUES_16[t.draw(crate::net::MUT_VALUES_16.len() as u32) as usize]))
+    } else {
+        let f = FIELDS8[t.draw(FIELDS8.len() as u32) as usize];
+        (f, t.draw(256))
+    };
+    let truncs = sweep_truncs(tier);
+    let trunc = truncs[t.draw(truncs.len() as u32) as usize];
+    let proto_i = cfg % 5;
+    let v6 = (cfg / 5) % 2 == 1;
+    let ext_enabled = (cfg / 10) % 2 == 1;
+    let layout_i = cfg / 20;
+    let (proto, strat, ports) = match proto_i {
+        0 => (Proto::Icmp, Strat::Classic, Ports::None),
+        1 => (Proto::Udp, Strat::Classic, Ports::FixedSrc(5000)),
+        2 => (Proto::Udp, Strat::Paris, Ports::FixedDest(33434)),
+        3 => (Proto::Udp, Strat::Dublin, Ports::FixedBoth(5000, 33434)),
+        _ => (Proto::Tcp, Strat::Classic, Ports::FixedDest(80)),
+    };
+    let objs = vec![
+        mpls_object(&[MplsEntry { label: 16, exp: 1, bos: 0, ttl: 1 }, MplsEntry { label: 17, exp: 2, bos: 1, ttl: 2 }]),
+        ExtObject { class: 2, ctype: 3, payload: vec![1, 2, 3, 4, 5, 6, 7, 8] },
+    ];
+    let (quote, layout) = match layout_i {
+        0 => (Quote::Min8, ErrorLayout::Plain),
+        1 => (Quote::Full, ErrorLayout::Plain),
+        2 => (Quote::Full, ErrorLayout::Compliant(objs)),
+        _ => (Quote::Min8, ErrorLayout::Legacy128(objs)),
+    };
+    let router = |h: u32| RouterCfg {
+        addr: router_addr(v6, h, 0, 0),
+        silent: false,
+        rate_limit: 1,
+        duplicate: false,
+        extra_delay_ns: 0,
+        quote,
+        layout: layout.clone(),
+        quoted_ttl: 1,
+        tos_rewrite: None,
+        nat: None,
+        unreachable_code: None,
+    };
+    let ms = 1_000_000u64;
+    Scenario {
+        tracer: TracerCfg {
+            v6,
+            proto,
+            strat,
+            ports,
+            unprivileged: false,
+            ext_enabled,
+            first_ttl: 1,
+            max_ttl: 8,
+            max_inflight: 24,
+            initial_seq: 33434,
+            packet_size: if layout_i == 1 || layout_i == 2 { 300 } else { 84 },
+            pattern: 0x2a,
+            tos: 0,
+            trace_id: 0x1234,
+            rounds: 1,
+            min_round_ns: 0,
+            max_round_ns: 5 * ms,
+            grace_ns: 0,
+            read_timeout_ns: ms,
+            tcp_connect_timeout_ns: 100 * ms,
+            max_samples: 4,
+            max_flows: 4,
+            explicit_source: false,
+            interface: None,
+            source: default_source(v6),
+            target: default_target(v6),
+        },
+        net: NetCfg {
+            paths: vec![PathCfg { routers: vec![router(1), router(2)] }],
+            route_change: None,
+            target: TargetCfg { behaviour: TargetBehaviour::Normal, reply_from: None, tcp_open: true, quote, layout },
+            probe_loss_pm: 0,
+            resp_loss_pm: 0,
+            dup_pm: 0,
+            extra_delay_pm: 0,
+            late_pm: 0,
+            hop_delay_ns: 50_000,
+            jitter_ns: 0,
+            ecmp_salt: 7,
+        },
+        inject: InjectCfg::default(),
+        faults: FaultCfg { sock_pm: 0, sock_benign_pm: 0, scripted: Vec::new(), stall_pm: 0, stall_max_ns: 0, addr_in_use_pm: 0, tick_base_ns: 100, tick_jitter_ns: 0 },
+        stable: true,
+        light: true,
+        mutation: Some(Mutation { field, value, trunc }),
+        sniff: true,
+    }
+}
+
+fn g_sweep8_quick(t: &mut Tape) -> Scenario {
+    sweep_scenario(t, false, "quick")
+}
+fn g_sweep8_thorough(t: &mut Tape) -> Scenario {
+    sweep_scenario(t, false, "thorough")
+}
+fn g_sweep16_quick(t: &mut Tape) -> Scenario {
+    sweep_scenario(t, true, "quick")
+}
+fn g_sweep16_thorough(t: &mut Tape) -> Scenario {
+    sweep_scenario(t, true, "thorough")
+}
+
+/// Every combination the `Builder` API admits, valid or not.
+fn g_builder(t: &mut Tape) -> Scenario {
+    use crate::scenario::{Ports, Proto, Strat};
+    let mut p = Profile::base();
+    p.max_rounds = 3;
+    p.max_path = 10;
+    p.extensions = false;
+    p.route_change = false;
+    if t.chance(500) {
+        p.delivery_faults = false;
+        p.hop_kinds = false;
+        p.stalls = false;
+    }
+    let mut sc = gen_scenario(t, &p);
+    let tr = &mut sc.tracer;
+    tr.proto = [Proto::Icmp, Proto::Udp, Proto::Tcp][t.pick(3)];
+    tr.strat = [Strat::Classic, Strat::Paris, Strat::Dublin][t.pick(3)];
+    let a = 1 + t.draw(65535) as u16;
+    let b = 1 + t.draw(65535) as u16;
+    tr.ports = match t.pick(4) {
+        0 => Ports::FixedSrc(a),
+        1 => Ports::FixedDest(a),
+        2 => Ports::FixedBoth(a, b),
+        _ => Ports::None,
+    };
+    tr.unprivileged = t.chance(400);
+    let byte = |t: &mut Tape| match t.weighted(&[40, 15, 15, 10, 20]) {
+        0 => 1 + t.draw(30),
+        1 => 0,
+        2 => 254,
+        3 => 255,
+        _ => t.draw(256),
+    } as u8;
+    tr.first_ttl = byte(t);
+    tr.max_ttl = byte(t);
+    tr.max_inflight = byte(t);
+    tr.packet_size = match t.weighted(&[40, 10, 10, 10, 10, 20]) {
+        0 => 28 + t.draw(997) as u16,
+        1 => 0,
+        2 => t.draw(48) as u16,
+        3 => 1025 + t.draw(500) as u16,
+        4 => 65535,
+        _ => t.draw(65536) as u16,
+    };
+    tr.initial_seq = match t.weighted(&[50, 10, 10, 30]) {
+        0 => tr.initial_seq,
+        1 => 64512,
+        2 => 65535,
+        _ => t.draw(65536) as u16,
+    };
+    tr.max_samples = [256usize, 0, 1, 3][t.pick(4)];
+    tr.max_flows = [64usize, 0, 1, 2][t.pick(4)];
+    if t.chance(200) {
+        tr.min_round_ns = tr.max_round_ns + 1_000_000; // min > max is accepted by the builder
+    }
+    sc.stable = false;
+    sc
+}
+
 const ASSUME_SIM: &str = "the simulated socket/platform layer and network model (SimSocket, SimPlatform, independent decoder) stand in for the kernel and the Internet; real SocketImpl/PlatformImpl are outside the claim";
 const ASSUME_CLOCK: &str = "virtual time is monotone (clock_gettime interposed); backward clock steps are not injected";
 
@@ -262,9 +575,9 @@ pub fn registry() -> Vec<PropertyCheck> {
             level: "exploration",
             rule: "each run = one seeded scenario (tracer configuration cell x simulated topology x delivery-fault plan) executed by the real tracer over SimSocket in virtual time; a run is non-trivial when at least one fault kind fired or one reach counter moved; distinct = distinct abstract traces (hash of the sequence of (event kind, ttl, outcome class), times and addresses erased)",
             families: vec![
-                Family { name: "swarm", gen: g_base, oracle: oracle::c01, opts: opts_full(), quick_runs: 150_000, thorough_runs: 6_000_000, must_reach: &["fault.probe_loss", "fault.duplicate", "fault.late_delivery", "reach.late_response_handed"] },
-                Family { name: "fault-free", gen: g_quiet, oracle: oracle::c01, opts: opts_full(), quick_runs: 50_000, thorough_runs: 1_500_000, must_reach: &[] },
-                Family { name: "socket-faults", gen: g_sockfaults, oracle: oracle::c01, opts: opts_full(), quick_runs: 50_000, thorough_runs: 1_500_000, must_reach: &[] },
+                Family { name: "swarm", gen: g_base, oracle: oracle::c01, opts: opts_full(), quick_runs: 150_000, thorough_runs: 6_000_000, must_reach: &["fault.probe_loss", "fault.duplicate", "fault.late_delivery", "reach.late_response_handed"], enum_dims: None },
+                Family { name: "fault-free", gen: g_quiet, oracle: oracle::c01, opts: opts_full(), quick_runs: 50_000, thorough_runs: 1_500_000, must_reach: &[], enum_dims: None },
+                Family { name: "socket-faults", gen: g_sockfaults, oracle: oracle::c01, opts: opts_full(), quick_runs: 50_000, thorough_runs: 1_500_000, must_reach: &[], enum_dims: None },
             ],
             assumptions: vec![ASSUME_SIM, ASSUME_CLOCK],
         },
@@ -273,10 +586,10 @@ pub fn registry() -> Vec<PropertyCheck> {
             level: "exploration",
             rule: "seeded scenarios on lossless networks where every hop answers once per probe in every quoting policy / RFC 4884 layout / TOS-TTL-checksum rewrite, long rounds sweeping the issuable sequence range per configuration cell (thorough: every sequence from 0 to the wrap in every cell), plus foreign quotations derived from genuine ones by changing exactly one identity field; non-trivial/distinct as for C01",
             families: vec![
-                Family { name: "lossless", gen: g_lossless, oracle: oracle::c02, opts: opts_light(), quick_runs: 120_000, thorough_runs: 4_000_000, must_reach: &["reach.extension_emitted", "fault.tos_rewrite"] },
-                Family { name: "foreign", gen: g_foreign, oracle: oracle::c02, opts: opts_light(), quick_runs: 80_000, thorough_runs: 3_000_000, must_reach: &["handed.Foreign"] },
-                Family { name: "sequence-sweep", gen: g_sweep_sample, oracle: oracle::c02, opts: opts_light(), quick_runs: 1_500, thorough_runs: 20_000, must_reach: &[] },
-                Family { name: "sequence-sweep-full", gen: g_sweep_full, oracle: oracle::c02, opts: opts_light(), quick_runs: 0, thorough_runs: 320, must_reach: &[] },
+                Family { name: "lossless", gen: g_lossless, oracle: oracle::c02, opts: opts_light(), quick_runs: 120_000, thorough_runs: 4_000_000, must_reach: &["reach.extension_emitted", "fault.tos_rewrite"], enum_dims: None },
+                Family { name: "foreign", gen: g_foreign, oracle: oracle::c02, opts: opts_light(), quick_runs: 80_000, thorough_runs: 3_000_000, must_reach: &["handed.Foreign"], enum_dims: None },
+                Family { name: "sequence-sweep", gen: g_sweep_sample, oracle: oracle::c02, opts: opts_light(), quick_runs: 1_500, thorough_runs: 20_000, must_reach: &[], enum_dims: None },
+                Family { name: "sequence-sweep-full", gen: g_sweep_full, oracle: oracle::c02, opts: opts_light(), quick_runs: 0, thorough_runs: 320, must_reach: &[], enum_dims: None },
             ],
             assumptions: vec![ASSUME_SIM, "standards-conforming responders are those of the network model (RFC 792/1812/4443/4884 quoting policies listed in DESIGN.md)"],
         },
@@ -285,8 +598,8 @@ pub fn registry() -> Vec<PropertyCheck> {
             level: "exploration",
             rule: "C01's workload plus adversarial deliveries at every phase of a round: duplicates, all previous-round responses re-delivered, foreign quotations (one identity field off), responses naming never-sent sequences inside/outside the window, unrelated ICMP; oracle = ground truth + reference model of the round bookkeeping fed with genuine responses only; non-trivial/distinct as for C01",
             families: vec![
-                Family { name: "inject", gen: g_inject, oracle: oracle::c03, opts: opts_full(), quick_runs: 150_000, thorough_runs: 6_000_000, must_reach: &["handed.NeverSent", "handed.Foreign", "handed.Replay", "handed.Duplicate", "handed.Unrelated"] },
-                Family { name: "inject-quiet", gen: g_inject_quiet, oracle: oracle::c03, opts: opts_full(), quick_runs: 60_000, thorough_runs: 2_000_000, must_reach: &[] },
+                Family { name: "inject", gen: g_inject, oracle: oracle::c03, opts: opts_full(), quick_runs: 150_000, thorough_runs: 6_000_000, must_reach: &["handed.NeverSent", "handed.Foreign", "handed.Replay", "handed.Duplicate", "handed.Unrelated"], enum_dims: None },
+                Family { name: "inject-quiet", gen: g_inject_quiet, oracle: oracle::c03, opts: opts_full(), quick_runs: 60_000, thorough_runs: 2_000_000, must_reach: &[], enum_dims: None },
             ],
             assumptions: vec![ASSUME_SIM, ASSUME_CLOCK, "a forged response naming a sequence that the tracer did issue before the forgery arrived is indistinguishable from a genuine one; such runs are excluded"],
         },
@@ -295,18 +608,81 @@ pub fn registry() -> Vec<PropertyCheck> {
             level: "exploration",
             rule: "long seeded runs (50..1500 short rounds) from boundary and random initial sequences, both maximum-sequence regimes, TCP port-collision storms up to every bind failing; sequence arithmetic monitor over every send attempt plus re-delivery of all previous-round responses; non-trivial/distinct as for C01",
             families: vec![
-                Family { name: "long-runs", gen: g_long, oracle: oracle::c07, opts: opts_light(), quick_runs: 6_000, thorough_runs: 300_000, must_reach: &[] },
-                Family { name: "socket-faults", gen: g_sockfaults, oracle: oracle::c07, opts: opts_light(), quick_runs: 40_000, thorough_runs: 1_500_000, must_reach: &[] },
+                Family { name: "long-runs", gen: g_long, oracle: oracle::c07, opts: opts_light(), quick_runs: 6_000, thorough_runs: 300_000, must_reach: &[], enum_dims: None },
+                Family { name: "socket-faults", gen: g_sockfaults, oracle: oracle::c07, opts: opts_light(), quick_runs: 40_000, thorough_runs: 1_500_000, must_reach: &[], enum_dims: None },
             ],
             assumptions: vec![ASSUME_SIM, ASSUME_CLOCK],
+        },
+        PropertyCheck {
+            id: "C04",
+            level: "fault_enumeration",
+            rule: "sweep (enumerated, exhaustive over the stated grid): for each of 80 configurations (protocol x family x strategy x extension mode x responder layout) every genuine ICMP response of a one-round trace is delivered with one length/offset/type field overwritten by every 8-bit value (16-bit fields: a 35-value boundary set) and truncated to every length of the tier's set, through the real Channel, Strategy and State; live: seeded traces whose responses are corrupted in flight (bit flips, truncation, field rewrites, oversize); a passive sniffer walks every public trippy-packet view over every delivered datagram. A case is non-trivial when a corruption was delivered; distinct = distinct abstract traces",
+            families: vec![
+                Family { name: "sweep-8bit-fields", gen: g_sweep8_quick, oracle: oracle::c04, opts: opts_light(), quick_runs: 0, thorough_runs: 0, must_reach: &["handed.Corrupt"], enum_dims: Some(sweep_dims8_quick) },
+                Family { name: "sweep-16bit-fields", gen: g_sweep16_quick, oracle: oracle::c04, opts: opts_light(), quick_runs: 0, thorough_runs: 0, must_reach: &["handed.Corrupt"], enum_dims: Some(sweep_dims16_quick) },
+                Family { name: "sweep-8bit-fields-all-lengths", gen: g_sweep8_thorough, oracle: oracle::c04, opts: opts_light(), quick_runs: 0, thorough_runs: 0, must_reach: &["handed.Corrupt"], enum_dims: Some(sweep_dims8_thorough) },
+                Family { name: "sweep-16bit-fields-all-lengths", gen: g_sweep16_thorough, oracle: oracle::c04, opts: opts_light(), quick_runs: 0, thorough_runs: 0, must_reach: &["handed.Corrupt"], enum_dims: Some(sweep_dims16_thorough) },
+                Family { name: "live-corruption", gen: g_corrupt, oracle: oracle::c04, opts: opts_light(), quick_runs: 120_000, thorough_runs: 5_000_000, must_reach: &["fault.corrupt.bitflip", "fault.corrupt.truncate", "fault.corrupt.field", "fault.corrupt.oversize"], enum_dims: None },
+            ],
+            assumptions: vec![ASSUME_SIM, "the accessor half (every accessor of every packet view) is input enumeration riding on the simulator's traffic: the sniffer sees the datagrams the simulator delivers and the sub-slices the views themselves expose, not arbitrary buffers"],
+        },
+        PropertyCheck {
+            id: "C05",
+            level: "exploration",
+            rule: "round histories published by the real strategy under the full fault mix (complete / awaited / failed / skipped probes) are re-aggregated by a reference aggregator (plain lists, two-pass formulas) and compared with the snapshot after every round, together with the conservation laws; non-trivial/distinct as for C01",
+            families: vec![
+                Family { name: "stats-long", gen: g_stats, oracle: oracle::c05, opts: opts_full(), quick_runs: 8_000, thorough_runs: 300_000, must_reach: &[], enum_dims: None },
+                Family { name: "swarm", gen: g_base, oracle: oracle::c05, opts: opts_full(), quick_runs: 60_000, thorough_runs: 2_000_000, must_reach: &[], enum_dims: None },
+                Family { name: "socket-faults", gen: g_sockfaults, oracle: oracle::c05, opts: opts_full(), quick_runs: 40_000, thorough_runs: 1_500_000, must_reach: &[], enum_dims: None },
+            ],
+            assumptions: vec![ASSUME_SIM, ASSUME_CLOCK, "floating point figures are compared with relative tolerance 1e-9 (stddev: 1e-6 against the two-pass formula)"],
+        },
+        PropertyCheck {
+            id: "C14",
+            level: "exploration",
+            rule: "extension-emitting routers and targets in the simulated network: every RFC 4884 length the quotation policies produce (compliant and legacy 128-octet forms), 0..n objects of arbitrary class/size, MPLS stacks with arbitrary label/EXP/S/TTL, both parse modes, IPv4 and IPv6; the reported extensions must equal the encoded list and the probe must still be recognised; non-trivial/distinct as for C01",
+            families: vec![
+                Family { name: "extensions", gen: g_ext, oracle: oracle::c14, opts: opts_light(), quick_runs: 150_000, thorough_runs: 5_000_000, must_reach: &["reach.extension_emitted", "reach.ext_quotation_ge_256_octets"], enum_dims: None },
+                Family { name: "swarm", gen: g_base, oracle: oracle::c14, opts: opts_light(), quick_runs: 50_000, thorough_runs: 2_000_000, must_reach: &[], enum_dims: None },
+            ],
+            assumptions: vec![ASSUME_SIM, "an ICMP error without RFC 4884 length whose quotation exceeds 128 octets is ambiguous under RFC 4884 section 5; identity is asserted for such messages, extension equality is not"],
+        },
+        PropertyCheck {
+            id: "C15",
+            level: "exploration",
+            rule: "Paris/Dublin (and classic) traces over ECMP topologies with silent hops, unequal branch lengths, first-ttl > 1, max-flows 1..64 over up to 40 rounds; flow invariants and per-flow reference aggregation after every round; non-trivial/distinct as for C01",
+            families: vec![
+                Family { name: "flows", gen: g_flows, oracle: oracle::c15, opts: opts_full(), quick_runs: 60_000, thorough_runs: 2_500_000, must_reach: &["reach.ecmp_path_1"], enum_dims: None },
+                Family { name: "swarm", gen: g_base, oracle: oracle::c15, opts: opts_full(), quick_runs: 40_000, thorough_runs: 1_500_000, must_reach: &[], enum_dims: None },
+            ],
+            assumptions: vec![ASSUME_SIM, "position = ttl offset from first-ttl; rounds containing failed or skipped probes are held to the clauses that do not depend on positions"],
+        },
+        PropertyCheck {
+            id: "C16",
+            level: "exploration",
+            rule: "builder path: every combination the Builder API admits (any protocol x strategy x port direction x privilege, ttl and in-flight limits 0..255, packet sizes 0..65535, sequences 0..65535, zero sample/flow limits, min > max durations) is built and, when accepted, run for up to three rounds over benign and faulty simulated networks; it must be rejected before any socket call or run without panicking; non-trivial/distinct as for C01",
+            families: vec![
+                Family { name: "builder-combinations", gen: g_builder, oracle: oracle::c16, opts: opts_light(), quick_runs: 200_000, thorough_runs: 8_000_000, must_reach: &["end.rejected", "end.ok"], enum_dims: None },
+            ],
+            assumptions: vec![ASSUME_SIM, "the command-line half of C16 (option precedence, CLI validation) is decided by tuisim's configuration pipeline, not here"],
+        },
+        PropertyCheck {
+            id: "C19",
+            level: "exploration",
+            rule: "IPv4/UDP/Dublin traces over paths with 0..3 address/port rewriting devices at drawn distances, silent and lossy hops; per-round NAT status recomputed from the quoted checksums on the simulated wire; all other configurations must report not-applicable; non-trivial/distinct as for C01",
+            families: vec![
+                Family { name: "nat", gen: g_nat, oracle: oracle::c19, opts: opts_full(), quick_runs: 100_000, thorough_runs: 4_000_000, must_reach: &["fault.nat_rewrite"], enum_dims: None },
+                Family { name: "swarm", gen: g_base, oracle: oracle::c19, opts: opts_full(), quick_runs: 40_000, thorough_runs: 1_500_000, must_reach: &[], enum_dims: None },
+            ],
+            assumptions: vec![ASSUME_SIM],
         },
         PropertyCheck {
             id: "C06",
             level: "exploration",
             rule: "seeded scenarios over all first/max ttl, max-inflight, path lengths and arrival orders; online send-discipline monitor over the interleaved sequence of wire records and hand-overs; non-trivial/distinct as for C01",
             families: vec![
-                Family { name: "swarm", gen: g_base, oracle: oracle::c06, opts: opts_light(), quick_runs: 200_000, thorough_runs: 8_000_000, must_reach: &["reach.probe_reached_target"] },
-                Family { name: "socket-faults", gen: g_sockfaults, oracle: oracle::c06, opts: opts_light(), quick_runs: 50_000, thorough_runs: 1_500_000, must_reach: &[] },
+                Family { name: "swarm", gen: g_base, oracle: oracle::c06, opts: opts_light(), quick_runs: 200_000, thorough_runs: 8_000_000, must_reach: &["reach.probe_reached_target"], enum_dims: None },
+                Family { name: "socket-faults", gen: g_sockfaults, oracle: oracle::c06, opts: opts_light(), quick_runs: 50_000, thorough_runs: 1_500_000, must_reach: &[], enum_dims: None },
             ],
             assumptions: vec![ASSUME_SIM, ASSUME_CLOCK],
         },
@@ -315,9 +691,9 @@ pub fn registry() -> Vec<PropertyCheck> {
             level: "exploration",
             rule: "seeded scenarios with min/max/grace/read-timeout drawn independently (zeros included) and response delays around the thresholds; timing predicate evaluated on the exact clock values handed to the tracer; non-trivial/distinct as for C01",
             families: vec![
-                Family { name: "timing", gen: g_timing, oracle: oracle::c08, opts: opts_light(), quick_runs: 150_000, thorough_runs: 6_000_000, must_reach: &[] },
-                Family { name: "timing-stalls", gen: g_timing_stalls, oracle: oracle::c08, opts: opts_light(), quick_runs: 50_000, thorough_runs: 2_000_000, must_reach: &["fault.stall"] },
-                Family { name: "swarm", gen: g_base, oracle: oracle::c08, opts: opts_light(), quick_runs: 50_000, thorough_runs: 2_000_000, must_reach: &[] },
+                Family { name: "timing", gen: g_timing, oracle: oracle::c08, opts: opts_light(), quick_runs: 150_000, thorough_runs: 6_000_000, must_reach: &[], enum_dims: None },
+                Family { name: "timing-stalls", gen: g_timing_stalls, oracle: oracle::c08, opts: opts_light(), quick_runs: 50_000, thorough_runs: 2_000_000, must_reach: &["fault.stall"], enum_dims: None },
+                Family { name: "swarm", gen: g_base, oracle: oracle::c08, opts: opts_light(), quick_runs: 50_000, thorough_runs: 2_000_000, must_reach: &[], enum_dims: None },
             ],
             assumptions: vec![ASSUME_SIM, ASSUME_CLOCK],
         },
@@ -326,8 +702,8 @@ pub fn registry() -> Vec<PropertyCheck> {
             level: "exploration",
             rule: "seeded scenarios with socket faults at random call sites (transient, address-in-use, fatal kinds) on top of network faults; round count / error hand-off / Failed / Skipped semantics; non-trivial/distinct as for C01",
             families: vec![
-                Family { name: "socket-faults", gen: g_sockfaults, oracle: oracle::c09, opts: opts_light(), quick_runs: 150_000, thorough_runs: 6_000_000, must_reach: &[] },
-                Family { name: "swarm", gen: g_base, oracle: oracle::c09, opts: opts_light(), quick_runs: 50_000, thorough_runs: 2_000_000, must_reach: &[] },
+                Family { name: "socket-faults", gen: g_sockfaults, oracle: oracle::c09, opts: opts_light(), quick_runs: 150_000, thorough_runs: 6_000_000, must_reach: &[], enum_dims: None },
+                Family { name: "swarm", gen: g_base, oracle: oracle::c09, opts: opts_light(), quick_runs: 50_000, thorough_runs: 2_000_000, must_reach: &[], enum_dims: None },
             ],
             assumptions: vec![ASSUME_SIM, ASSUME_CLOCK, "the transient-error table (which errno at which call site marks a probe failed / re-issues it) is transcribed from the pinned commit and is part of the oracle"],
         },
@@ -336,8 +712,8 @@ pub fn registry() -> Vec<PropertyCheck> {
             level: "exploration",
             rule: "seeded scenarios (stable and changing paths, silent targets, first-ttl > 1); hop-window invariants evaluated on a snapshot after every published round; non-trivial/distinct as for C01",
             families: vec![
-                Family { name: "swarm", gen: g_base, oracle: oracle::c10, opts: opts_full(), quick_runs: 120_000, thorough_runs: 5_000_000, must_reach: &[] },
-                Family { name: "fault-free", gen: g_quiet, oracle: oracle::c10, opts: opts_full(), quick_runs: 40_000, thorough_runs: 1_500_000, must_reach: &[] },
+                Family { name: "swarm", gen: g_base, oracle: oracle::c10, opts: opts_full(), quick_runs: 120_000, thorough_runs: 5_000_000, must_reach: &[], enum_dims: None },
+                Family { name: "fault-free", gen: g_quiet, oracle: oracle::c10, opts: opts_full(), quick_runs: 40_000, thorough_runs: 1_500_000, must_reach: &[], enum_dims: None },
             ],
             assumptions: vec![ASSUME_SIM, ASSUME_CLOCK],
         },
@@ -346,8 +722,8 @@ pub fn registry() -> Vec<PropertyCheck> {
             level: "exploration",
             rule: "every datagram of every seeded run is decoded by the independent RFC decoder and its checksums verified on the simulated wire; non-trivial/distinct as for C01",
             families: vec![
-                Family { name: "swarm", gen: g_base, oracle: oracle::c11, opts: opts_light(), quick_runs: 150_000, thorough_runs: 6_000_000, must_reach: &[] },
-                Family { name: "socket-faults", gen: g_sockfaults, oracle: oracle::c11, opts: opts_light(), quick_runs: 30_000, thorough_runs: 1_000_000, must_reach: &[] },
+                Family { name: "swarm", gen: g_base, oracle: oracle::c11, opts: opts_light(), quick_runs: 150_000, thorough_runs: 6_000_000, must_reach: &[], enum_dims: None },
+                Family { name: "socket-faults", gen: g_sockfaults, oracle: oracle::c11, opts: opts_light(), quick_runs: 30_000, thorough_runs: 1_000_000, must_reach: &[], enum_dims: None },
             ],
             assumptions: vec![ASSUME_SIM, "the independent decoder (wire.rs) is trusted; it shares no code with trippy-packet"],
         },
